@@ -104,13 +104,14 @@ PRIOR = "X:91 Y:92 Z:93 E:94 T:95 B:96 F:97 S:98 A:99.5 C:-99.5"
 PRIOR_EXP = {"X": 91.0, "Y": 92.0, "Z": 93.0, "E": 94.0, "T": 95.0, "B": 96.0, "F": 97.0, "S": 98.0, "A": 99.5, "C": -99.5}
 
 
-def check_report(text, expected, with_prior):
+def check_report(text, expected, with_prior, wrap=None):
+    """wrap: how the line arrives from printcore's reader ('crlf': with its CR LF terminator, 'space': Marlin's leading blank)."""
     w, cb = new_writer()
     model = {}
     if with_prior:
         cb(PRIOR)
         model.update(PRIOR_EXP)
-    cb(text)
+    cb(text + "\r\n" if wrap == "crlf" else (" " + text + "\n" if wrap == "space" else text))
     model.update(expected)
     problems = []
     for k in LETTERS:
@@ -130,8 +131,10 @@ def check_report(text, expected, with_prior):
 def _work_single(item):
     fam, text, exp = item
     out = []
-    for with_prior in (False, True):
-        for sig, msg in check_report(text, exp, with_prior):
+    for with_prior, wrap in ((False, None), (True, None), (True, "crlf"), (False, "space")):
+        if wrap == "space" and text.startswith(("ok", "<", "[")):
+            continue
+        for sig, msg in check_report(text, exp, with_prior, wrap):
             lead = "leading-ok" if text.startswith("ok") else "plain"
             out.append((f"{fam}:{lead}:{sig}", msg, {"reports": ([PRIOR] if with_prior else []) + [text]}))
     return out
@@ -192,7 +195,7 @@ def run(tier, seed):
     for f, _, _ in singles:
         fams[f] = fams.get(f, 0) + 1
     res.coverage = {
-        "evaluations": 2 * len(singles) + len(hists),
+        "evaluations": 4 * len(singles) + len(hists),
         "distinct_nontrivial": len({t for _, t, _ in singles}) + len(states),
         "rule": ("reports generated from structured fields so the expected readings are known without parsing: Marlin position (X,Y,Z,E in all 24 orders + "
                  "Count block with other values), Marlin temperature (with/without leading ok, @ tail, T0 decoy), Grbl status (MPos|WPos, FS, multi-letter "
